@@ -1,6 +1,7 @@
 //! Correspondence harness: generates cases, runs the real crates (built from /repo's working
 //! tree) in-process and prints one protocol line per case (input + the implementation's
 //! canonicalised output) for the Lean driver.  See /verif/DESIGN.md section 5.
+mod c06;
 mod c07;
 mod c16;
 mod c17;
@@ -120,6 +121,7 @@ fn main() {
     for line in replay_lines.iter() {
         let line = line.clone();
         match prop.as_str() {
+            "C06" => c06::replay(&prop, &line, &mut out),
             "C07" | "C08" => c07::replay(&prop, &line, &mut out),
             "C16" => c16::replay(&line, &mut out),
             "C17" => c17::replay(&line, &mut out),
@@ -138,6 +140,7 @@ fn main() {
         return;
     }
     match prop.as_str() {
+        "C06" => c06::run(&prop, &opts, &mut out),
         "C07" | "C08" => c07::run(&prop, &opts, &mut out),
         "C16" => c16::run(&opts, &mut out),
         "C17" => c17::run(&opts, &mut out),
